@@ -13,7 +13,7 @@ DEFAULT = dict(
     nb=(1, 3), p_parallel=0.2, maxh=[50, 50, 50, None, 2, 3, 4], p_timeout=0.0, p_forward=0.12, p_sync=0.2,
     nh=(1, 6), proglen=(0, 5), ntasks=(1, 2), tasklen=(1, 6), p_wild=0.15, p_raise=0.05, p_readbus=0.04,
     p_redispatch=0.03, p_multikey=0.05, wild_dispatch=False, p_waitidle=0.1, p_parent=0.03, p_wal=0.0,
-    p_stop=0.0, p_expect=0.0, p_cancelrl=0.0, p_notimeout=0.1, p_walfault=0.0, p_payload=0.0, p_cleanup=0.15, p_samenames=0.0, p_dupnames=0.15, p_retry=0.1, par_timeouts=False,
+    p_stop=0.0, p_expect=0.0, p_cancelrl=0.0, p_notimeout=0.1, p_walfault=0.0, p_payload=0.0, p_cleanup=0.15, p_samenames=0.0, p_dupnames=0.15, p_retry=0.1, p_late=0.12, par_timeouts=False,
 )
 
 PAYLOADS = [
@@ -138,6 +138,19 @@ def gen_core(rng, **over):
         sc['handlers'].append(h)
     for x in range(rng.randint(*o['ntasks'])):
         sc['tasks'].append(gen_task(rng, o, nb, x == 0))
+    if o['p_late'] and rng.random() < o['p_late'] and sc['handlers'] and sc['tasks'] and sc['tasks'][0]:
+        # one handler is registered late, by the main task, which then dispatches one of its events again
+        cand = [k for k, h in enumerate(sc['handlers']) if h['kind'] in ('async', 'sync')]
+        slots = [op[3] for op in sc['tasks'][0] if op[0] == 'dispatch']
+        if cand and slots:
+            k = rng.choice(cand)
+            sc['handlers'][k]['late'] = True
+            pos = rng.randint(1, len(sc['tasks'][0]))
+            sc['tasks'][0][pos:pos] = [['on', k]]
+            prior = [op[3] for op in sc['tasks'][0][:pos] if op[0] == 'dispatch']
+            if prior:
+                s0 = rng.choice(prior)
+                sc['tasks'][0][pos + 1:pos + 1] = [['sleep', rng.choice([0, 2 / 64, 16 / 64])], ['redispatch', s0, sc['handlers'][k]['bus']]]
     if o['p_samenames'] and rng.random() < o['p_samenames']:
         sc['same_names'] = True
     if o['p_dupnames'] and rng.random() < o['p_dupnames']:
@@ -300,6 +313,60 @@ def gen_parraise(rng, idle=False, **_):
         # a small history on the parallel bus, later events that evict the first one, then wait_until_idle()
         sc['buses'][0]['maxh'] = rng.choice([2, 3])
         main = [['dispatch', 0, 'A', 0]] + [['dispatch', 0, 'B', 1 + j] for j in range(rng.randint(1, 3))] + [['waitidle', 0]]
+    sc['tasks'].append(main)
+    return sc
+
+
+def gen_partimeout(rng, **_):
+    """handler timeouts on a parallel_handlers bus whose only executor is its run loop (no in-handler awaits, so no
+    executor is ever cancelled under a parallel activation - the situation the model leaves out): several handlers per
+    event, some overrun the event's timeout, some finish, some raise"""
+    sc = {'buses': [{'parallel': True, 'maxh': 50, 'wal': False}],
+          'types': {t: {'timeout': rng.choice([None, 9 / 128, 33 / 128])} for t in 'ABCD'}, 'handlers': [], 'tasks': []}
+    for _ in range(rng.randint(2, 6)):
+        prog = [['sleep', rng.choice([0, 1 / 64, 4 / 64, 16 / 64, 40 / 64])] for _ in range(rng.randint(1, 3))]
+        key = rng.choice(['A', 'A', 'B', '*'])
+        if key != '*' and rng.random() < 0.3:
+            prog.insert(rng.randrange(len(prog) + 1), ['dispatch', 0, 'D', 0])      # fire and forget (D is only handled by '*')
+        if rng.random() < 0.1:
+            prog.append(['raise'])
+        h = {'bus': 0, 'key': key, 'kind': 'async', 'prog': prog}
+        if rng.random() < 0.3:
+            h['cleanup'] = rng.choice([1 / 64, 9 / 64])
+        sc['handlers'].append(h)
+    if rng.random() < 0.5:
+        sc['handlers'].append({'bus': 0, 'key': 'A', 'kind': 'sync', 'prog': []})
+    main = []
+    for i in range(rng.randint(1, 3)):
+        main.append(['dispatch', 0, rng.choice('AB'), i])
+        if rng.random() < 0.5:
+            main.append(['await', i])
+    if rng.random() < 0.4:
+        main.append(['waitidle', 0])
+    sc['tasks'].append(main)
+    return sc
+
+
+def gen_parshare(rng, **_):
+    """two or three handlers of one event on a parallel_handlers bus await the SAME child: one dispatches it, the others pick
+    it up from `event.event_children`; the child's handlers have several suspension points"""
+    nb = rng.randint(1, 2)
+    sc = {'buses': [{'parallel': True, 'maxh': 50, 'wal': False}] + [{'parallel': False, 'maxh': 50, 'wal': False}] * (nb - 1),
+          'types': {t: {'timeout': None} for t in 'ABCD'}, 'handlers': [], 'tasks': []}
+    cb = rng.randrange(nb)
+    hs = [{'bus': 0, 'key': 'A', 'kind': 'async',
+           'prog': [['dispatch', cb, 'C', 0]] + ([['dispatch', cb, 'D', 1]] if rng.random() < 0.4 else []) + [['await', 0]]}]
+    for _ in range(rng.randint(1, 2)):
+        hs.append({'bus': 0, 'key': 'A', 'kind': 'async',
+                   'prog': [['sleep', rng.choice([0, 0, 1 / 64])], ['await_sibling_child'], ['sleep', rng.choice([0, 1 / 64])]]})
+    sc['handlers'] += hs
+    for j in range(rng.randint(1, 2)):
+        sc['handlers'].append({'bus': cb, 'key': 'C', 'kind': 'async',
+                               'prog': [['sleep', rng.choice([0, 1 / 64, 1 / 16])] for _ in range(rng.randint(1, 4))]})
+    sc['handlers'].append({'bus': cb, 'key': 'D', 'kind': 'async', 'prog': [['sleep', rng.choice([0, 1 / 64])]]})
+    main = [['dispatch', 0, 'A', 0], ['await', 0]]
+    if rng.random() < 0.4:
+        main = [['dispatch', cb, 'D', 5]] + main
     sc['tasks'].append(main)
     return sc
 
